@@ -10,6 +10,16 @@ open CGV
 /-- the entry carries a prewrite (non-pessimistic) lock of transaction `T` -/
 def LockedBy (e : Entry) (T : TS) : Prop := ∃ l, e.lock = some l ∧ l.startTS = T ∧ l.op ≠ .pessimisticLock
 
+theorem LockedBy.lock_eq {e : Entry} {T : TS} {l : Lock} (h : LockedBy e T) (hl : e.lock = some l) :
+    l.startTS = T ∧ l.op ≠ .pessimisticLock := by
+  obtain ⟨l0, h0, hT, hop⟩ := h
+  rw [hl] at h0; injection h0 with h0; subst h0
+  exact ⟨hT, hop⟩
+
+theorem LockedBy.of_lock_eq {e e' : Entry} {T : TS} (h : LockedBy e T) (heq : e'.lock = e.lock) : LockedBy e' T := by
+  obtain ⟨l0, h0, hT, hop⟩ := h
+  exact ⟨l0, by rw [heq]; exact h0, hT, hop⟩
+
 /-- a batch entry that writes a prewrite lock of `T` -/
 def PutsLockOf (T : TS) (a : Act) : Prop := ∃ k l, a = Act.putLock k l ∧ l.startTS = T ∧ l.op ≠ .pessimisticLock
 
@@ -267,6 +277,89 @@ open CGV CGV.Mvcc
 theorem prewriteLocked_iff_lockedBy (f : FStore) (T : Nat) (k : Bytes) :
     PrewriteLocked f T k ↔ LockedBy (getEntry f.base.kv k) T := Iff.rfl
 
+/-! ### `settle` keeps keys and locks -/
+
+/-- what `repairOverlap` does to one entry: the key and the lock stay, lost data records are put back -/
+def repairEntry (old : List (Bytes × Entry)) (p : Bytes × Entry) : Bytes × Entry :=
+  let (k, e) := p
+  let oe := getEntry old k
+  let lost := oe.writes.filter fun w => w.vt != .rollback &&
+    e.writes.any fun w' => w'.commitTS == w.commitTS && w'.vt == .rollback && w'.startTS != w.startTS
+  (k, { e with writes := lost.foldl (fun ws w => putWrite ws w) e.writes })
+
+theorem repairOverlap_fst (old new : List (Bytes × Entry)) : (repairOverlap old new).1 = new.map (repairEntry old) := by
+  unfold repairOverlap
+  suffices h : ∀ (a : List (Bytes × Entry)) (c : List (Bytes × Nat)),
+      (new.foldl (fun (acc : List (Bytes × Entry) × List (Bytes × Nat)) p =>
+        let (k, e) := p
+        let oe := getEntry old k
+        let lost := oe.writes.filter fun w => w.vt != .rollback &&
+          e.writes.any fun w' => w'.commitTS == w.commitTS && w'.vt == .rollback && w'.startTS != w.startTS
+        let covered := oe.writes.filter fun w => w.vt == .rollback &&
+          e.writes.any fun w' => w'.commitTS == w.commitTS && w'.vt != .rollback
+        let marks := (lost.filterMap fun w => (e.writes.find? fun w' => w'.commitTS == w.commitTS).map fun w' => (k, w'.startTS))
+          ++ covered.map fun w => (k, w.startTS)
+        let writes' := lost.foldl (fun ws w => putWrite ws w) e.writes
+        (acc.1 ++ [(k, { e with writes := writes' })], acc.2 ++ marks)) (a, c)).1 = a ++ new.map (repairEntry old) by
+    simpa using h [] []
+  induction new with
+  | nil => intro a c; simp
+  | cons p rest ih =>
+    intro a c
+    obtain ⟨k, e⟩ := p
+    simp only [List.foldl_cons, List.map_cons]
+    rw [ih]
+    simp [repairEntry]
+
+theorem getEntry_map_lock (kv : List (Bytes × Entry)) (g : Bytes × Entry → Bytes × Entry)
+    (hg : ∀ p, (g p).1 = p.1 ∧ (g p).2.lock = p.2.lock) (k : Bytes) :
+    (getEntry (kv.map g) k).lock = (getEntry kv k).lock := by
+  induction kv with
+  | nil => rfl
+  | cons p rest ih =>
+    obtain ⟨k', e⟩ := p
+    have h1 := hg (k', e)
+    simp only [List.map_cons]
+    generalize g (k', e) = q at h1
+    obtain ⟨k2, e2⟩ := q
+    simp only [] at h1
+    obtain ⟨rfl, h2⟩ := h1
+    simp only [getEntry]
+    split
+    · exact h2
+    · exact ih
+
+theorem settle_lock (f : FStore) (s : Store) (k : Bytes) :
+    (getEntry (f.settle s).base.kv k).lock = (getEntry s.kv k).lock := by
+  unfold FStore.settle
+  show (getEntry (repairOverlap f.base.kv s.kv).1 k).lock = _
+  rw [repairOverlap_fst]
+  exact getEntry_map_lock s.kv (repairEntry f.base.kv) (fun p => ⟨rfl, rfl⟩) k
+
+theorem map_sorted (kv : List (Bytes × Entry)) (g : Bytes × Entry → Bytes × Entry) (hg : ∀ p, (g p).1 = p.1)
+    (hs : KvSorted kv) : KvSorted (kv.map g) := by
+  induction kv with
+  | nil => trivial
+  | cons p rest ih =>
+    obtain ⟨k, e⟩ := p
+    have h1 := hg (k, e)
+    simp only [List.map_cons]
+    generalize g (k, e) = q at h1
+    obtain ⟨k2, e2⟩ := q
+    simp only [] at h1
+    subst h1
+    obtain ⟨hgt, hs'⟩ := KvSorted.cons_iff.mp hs
+    refine KvSorted.cons_iff.mpr ⟨?_, ih hs'⟩
+    intro p hp
+    obtain ⟨q, hq, rfl⟩ := List.mem_map.mp hp
+    rw [hg q]; exact hgt q hq
+
+theorem settle_sorted (f : FStore) (s : Store) (hs : KvSorted s.kv) : KvSorted (f.settle s).base.kv := by
+  unfold FStore.settle
+  show KvSorted (repairOverlap f.base.kv s.kv).1
+  rw [repairOverlap_fst]
+  exact map_sorted s.kv (repairEntry f.base.kv) (fun p => rfl) hs
+
 /-- the min_commit_ts an async-commit / one-phase prewrite computes -/
 def commitFloor (f : FStore) (r : PrewriteReq) : Nat :=
   max (max r.minCommitTS (r.startTS + 1)) (max (r.forUpdateTS + 1) (f.maxTS + 1))
@@ -290,15 +383,18 @@ def asyncStore (f : FStore) (r : PrewriteReq) (x : FPrewriteExtra) (acts : List 
            async := asyncInfos r x (commitFloor f r) acts ++
              f.async.filter fun a => !((asyncInfos r x (commitFloor f r) acts).any fun i => i.key == a.key && i.startTS == a.startTS) }
 
-/-- the three outcomes of the ordinary prewrite path without one-phase commit: refused (nothing changes), plain 2PC
-    locks (also the fallback when max_commit_ts cannot be honoured; min_commit_ts 0 is answered), async-commit locks -/
-theorem fprewriteFresh_cases (f : FStore) (r : PrewriteReq) (x : FPrewriteExtra) (hx : x.tryOnePC = false) :
+/-- the outcomes of the ordinary prewrite path: refused (nothing changes), plain 2PC locks (also the fallback when
+    max_commit_ts cannot be honoured; min_commit_ts 0 is answered), one-phase commit, async-commit locks -/
+theorem fprewriteFresh_cases (f : FStore) (r : PrewriteReq) (x : FPrewriteExtra) :
     ∃ errs0 acts, prewriteLoop f.base r r.mutations 0 [] [] = (errs0, acts) ∧
       (((fprewriteFresh f r x).1 = f ∧ (fprewriteFresh f r x).2.errs.any Option.isSome = true) ∨
        (errs0.any Option.isSome = false ∧
           (fprewriteFresh f r x).1 = { f with base := { f.base with kv := applyBatch f.base.kv acts } } ∧
           (fprewriteFresh f r x).2.minCommitTS = 0) ∨
-       (errs0.any Option.isSome = false ∧
+       (x.tryOnePC = true ∧
+          (fprewriteFresh f r x).1 =
+            f.settle { f.base with kv := applyBatch f.base.kv (onePCActs acts r.startTS (commitFloor f r)) }) ∨
+       (x.tryOnePC = false ∧ errs0.any Option.isSome = false ∧
           (fprewriteFresh f r x).1 = asyncStore f r x acts ∧
           (fprewriteFresh f r x).2.minCommitTS = commitFloor f r)) := by
   cases hp : prewriteLoop f.base r r.mutations 0 [] [] with
@@ -325,8 +421,11 @@ theorem fprewriteFresh_cases (f : FStore) (r : PrewriteReq) (x : FPrewriteExtra)
           by_cases h2 : (x.maxCommitTS != 0 &&
               decide (max (max r.minCommitTS (r.startTS + 1)) (max (r.forUpdateTS + 1) (f.maxTS + 1)) > x.maxCommitTS)) = true
           · rw [if_pos h2]; exact Or.inl ⟨he0, rfl, rfl⟩
-          · rw [if_neg h2, if_neg (by rw [hx]; exact Bool.false_ne_true)]
-            exact Or.inr ⟨he0, rfl, rfl⟩
+          · rw [if_neg h2]
+            by_cases h3 : x.tryOnePC = true
+            · rw [if_pos h3]; exact Or.inr (Or.inl ⟨h3, rfl⟩)
+            · rw [if_neg h3]
+              exact Or.inr (Or.inr ⟨by simpa using h3, he0, rfl, rfl⟩)
 
 theorem asyncActs_putsLock (T m : Nat) (acts : List Act) (h : ∀ a ∈ acts, PutsLockOf T a) :
     ∀ a ∈ asyncActs m acts, PutsLockOf T a := by
@@ -347,6 +446,19 @@ theorem asyncActs_key (m : Nat) (acts : List Act) : ∀ a ∈ asyncActs m acts, 
   obtain ⟨b, hb, rfl⟩ := ha
   exact ⟨b, hb, by cases b <;> rfl⟩
 
+theorem onePCActs_key (acts : List Act) (T C : Nat) : ∀ a ∈ onePCActs acts T C, ∃ b ∈ acts, a.key = b.key := by
+  intro a ha
+  simp only [onePCActs, List.mem_flatMap] at ha
+  obtain ⟨b, hb, hab⟩ := ha
+  refine ⟨b, hb, ?_⟩
+  cases b with
+  | putLock k' l' =>
+    simp only [commitLock] at hab
+    split at hab <;> simp at hab <;> (try rcases hab with rfl | rfl) <;> simp_all [Act.key]
+  | delLock k' => simp at hab; subst hab; rfl
+  | putWrite k' w => simp at hab; subst hab; rfl
+  | delWrite k' c => simp at hab; subst hab; rfl
+
 /-- GOAL 1b, on a key-sorted store: an acknowledged prewrite of the full store without one-phase commit — plain 2PC,
     the fallback when max_commit_ts cannot be honoured, or async commit — that is not the idempotent answer to an
     already committed transaction leaves every locking mutation's key locked by the transaction -/
@@ -357,9 +469,9 @@ theorem fprewrite_ack_locks_sorted (f : FStore) (r : PrewriteReq) (x : FPrewrite
     ∀ m ∈ r.mutations, m.op ≠ .checkNotExists → PrewriteLocked (fprewrite f r x).1 r.startTS m.key := by
   have heq : fprewrite f r x = fprewriteFresh f r x := by unfold fprewrite; rw [hown]
   rw [heq] at hok ⊢
-  obtain ⟨errs0, acts, hp, hc⟩ := fprewriteFresh_cases f r x hx
+  obtain ⟨errs0, acts, hp, hc⟩ := fprewriteFresh_cases f r x
   intro m hm hne
-  rcases hc with ⟨_, hbad⟩ | ⟨he0, hst, _⟩ | ⟨he0, hst, _⟩
+  rcases hc with ⟨_, hbad⟩ | ⟨he0, hst, _⟩ | ⟨h1pc, _⟩ | ⟨_, he0, hst, _⟩
   · rw [hok] at hbad; cases hbad
   · obtain ⟨_, h2, h3⟩ := prewriteLoop_ok f.base r r.mutations 0 [] [] _ _ hp he0 hops
     rw [hst]
@@ -371,6 +483,7 @@ theorem fprewrite_ack_locks_sorted (f : FStore) (r : PrewriteReq) (x : FPrewrite
     · rcases h3 m hm hne with h4 | ⟨l, h4, _⟩
       · exact Or.inl h4
       · exact Or.inr ⟨l, h4⟩
+  · rw [hx] at h1pc; cases h1pc
   · obtain ⟨_, h2, h3⟩ := prewriteLoop_ok f.base r r.mutations 0 [] [] _ _ hp he0 hops
     rw [hst]
     apply applyBatch_putsLock f.base.kv _ r.startTS m.key hs
@@ -407,10 +520,11 @@ theorem fprewrite_ack_async (f : FStore) (r : PrewriteReq) (x : FPrewriteExtra) 
   have hlocked := fprewrite_ack_locks_sorted f r x hs hx hown hok hops m hm hne
   have heq : fprewrite f r x = fprewriteFresh f r x := by unfold fprewrite; rw [hown]
   rw [heq] at hok hmc hlocked ⊢
-  obtain ⟨errs0, acts, hp, hc⟩ := fprewriteFresh_cases f r x hx
-  rcases hc with ⟨_, hbad⟩ | ⟨_, _, hz⟩ | ⟨he0, hst, _⟩
+  obtain ⟨errs0, acts, hp, hc⟩ := fprewriteFresh_cases f r x
+  rcases hc with ⟨_, hbad⟩ | ⟨_, _, hz⟩ | ⟨h1pc, _⟩ | ⟨_, he0, hst, _⟩
   · rw [hok] at hbad; cases hbad
   · exact absurd hz hmc
+  · rw [hx] at h1pc; cases h1pc
   · obtain ⟨_, _, h3⟩ := prewriteLoop_ok f.base r r.mutations 0 [] [] _ _ hp he0 hops
     rcases h3 m hm hne with h4 | ⟨l, h4, _⟩
     · exact Or.inl h4
@@ -430,34 +544,42 @@ theorem fprewrite_ack_async (f : FStore) (r : PrewriteReq) (x : FPrewriteExtra) 
 
 /-! ### a prewrite lock survives every later prewrite request (of any transaction) -/
 
-theorem fprewrite_sorted (f : FStore) (r : PrewriteReq) (x : FPrewriteExtra) (hs : KvSorted f.base.kv)
-    (hx : x.tryOnePC = false) : KvSorted (fprewrite f r x).1.base.kv := by
+theorem fprewrite_sorted (f : FStore) (r : PrewriteReq) (x : FPrewriteExtra) (hs : KvSorted f.base.kv) :
+    KvSorted (fprewrite f r x).1.base.kv := by
   unfold fprewrite
   split
   · exact hs
-  · obtain ⟨errs0, acts, _, hc⟩ := fprewriteFresh_cases f r x hx
-    rcases hc with ⟨hst, _⟩ | ⟨_, hst, _⟩ | ⟨_, hst, _⟩ <;> rw [hst]
+  · obtain ⟨errs0, acts, _, hc⟩ := fprewriteFresh_cases f r x
+    rcases hc with ⟨hst, _⟩ | ⟨_, hst, _⟩ | ⟨_, hst⟩ | ⟨_, _, hst, _⟩ <;> rw [hst]
     · exact hs
     · exact applyBatch_sorted _ _ hs
+    · exact settle_sorted f _ (applyBatch_sorted _ _ hs)
     · exact applyBatch_sorted _ _ hs
 
-/-- a prewrite request of the full store (without one-phase commit), of whichever transaction and whatever its answer,
-    does not touch a key that carries a prewrite lock -/
+/-- a prewrite request of the full store — of whichever transaction, plain, async commit or one-phase commit, whatever
+    its answer — does not touch a key that carries a prewrite lock -/
 theorem fprewrite_keeps_locks (f : FStore) (r : PrewriteReq) (x : FPrewriteExtra) (hs : KvSorted f.base.kv)
-    (hx : x.tryOnePC = false) (T : Nat) (k : Bytes) (hl : PrewriteLocked f T k) :
+    (T : Nat) (k : Bytes) (hl : PrewriteLocked f T k) :
     PrewriteLocked (fprewrite f r x).1 T k := by
   unfold fprewrite
   split
   · exact hl
-  · obtain ⟨errs0, acts, hp, hc⟩ := fprewriteFresh_cases f r x hx
+  · obtain ⟨errs0, acts, hp, hc⟩ := fprewriteFresh_cases f r x
     have hun := prewriteLoop_acts_unlocked f.base r errs0 acts hp
-    rcases hc with ⟨hst, _⟩ | ⟨_, hst, _⟩ | ⟨_, hst, _⟩ <;> rw [hst]
+    rcases hc with ⟨hst, _⟩ | ⟨_, hst, _⟩ | ⟨_, hst⟩ | ⟨_, _, hst, _⟩ <;> rw [hst]
     · exact hl
     · show LockedBy (getEntry (applyBatch f.base.kv acts) k) T
       rw [applyBatch_untouched _ _ _ hs]
       · exact hl
       · intro a ha heq
         exact hun a ha T (by rw [heq]; exact hl)
+    · apply LockedBy.of_lock_eq hl
+      rw [settle_lock]
+      show (getEntry (applyBatch f.base.kv (onePCActs acts r.startTS (commitFloor f r))) k).lock = _
+      rw [applyBatch_untouched _ _ _ hs]
+      intro a ha heq
+      obtain ⟨b, hb, hkb⟩ := onePCActs_key _ _ _ a ha
+      exact hun b hb T (by rw [← hkb, heq]; exact hl)
     · show LockedBy (getEntry (applyBatch f.base.kv (asyncActs (commitFloor f r) acts)) k) T
       rw [applyBatch_untouched _ _ _ hs]
       · exact hl
@@ -470,14 +592,14 @@ def fprewriteAll (f : FStore) : List (PrewriteReq × FPrewriteExtra) → FStore
   | [] => f
   | (r, x) :: rest => fprewriteAll (fprewrite f r x).1 rest
 
-/-- along the run no request asks for one-phase commit, and every request of transaction `T` is acknowledged: it meets
-    no commit record of `T`, carries no pessimistic-lock mutation and is answered without an error -/
+/-- along the run every request of transaction `T` is acknowledged: it does not ask for one-phase commit, meets no
+    commit record of `T`, carries no pessimistic-lock mutation and is answered without an error.  Requests of other
+    transactions are unconstrained. -/
 def AckedAll (T : Nat) (f : FStore) : List (PrewriteReq × FPrewriteExtra) → Prop
   | [] => True
   | (r, x) :: rest =>
-    (x.tryOnePC = false ∧
-      (r.startTS = T → ownCommitTS f r = none ∧ (fprewrite f r x).2.errs.any Option.isSome = false ∧
-        ∀ m ∈ r.mutations, m.op ≠ .pessimisticLock)) ∧
+    (r.startTS = T → x.tryOnePC = false ∧ ownCommitTS f r = none ∧
+      (fprewrite f r x).2.errs.any Option.isSome = false ∧ ∀ m ∈ r.mutations, m.op ≠ .pessimisticLock) ∧
     AckedAll T (fprewrite f r x).1 rest
 
 theorem fprewriteAll_keeps_locks (f : FStore) (rs : List (PrewriteReq × FPrewriteExtra)) (T : Nat) (hs : KvSorted f.base.kv)
@@ -486,7 +608,7 @@ theorem fprewriteAll_keeps_locks (f : FStore) (rs : List (PrewriteReq × FPrewri
   | nil => exact hl
   | cons q rest ih =>
     obtain ⟨r, x⟩ := q
-    exact ih _ (fprewrite_sorted f r x hs hack.1.1) hack.2 (fprewrite_keeps_locks f r x hs hack.1.1 T k hl)
+    exact ih _ (fprewrite_sorted f r x hs) hack.2 (fprewrite_keeps_locks f r x hs T k hl)
 
 /-- after a run of acknowledged prewrite requests of `T`, the key of every locking mutation of every request of `T`
     carries the prewrite lock of `T` -/
@@ -499,11 +621,11 @@ theorem fprewriteAll_ack_locks (f : FStore) (rs : List (PrewriteReq × FPrewrite
   | cons q0 rest ih =>
     obtain ⟨r, x⟩ := q0
     intro q hq hT m hm hne
-    have hs' := fprewrite_sorted f r x hs hack.1.1
+    have hs' := fprewrite_sorted f r x hs
     cases hq with
     | head =>
-      obtain ⟨hown, hok, hops⟩ := hack.1.2 hT
-      have h1 := fprewrite_ack_locks_sorted f r x hs hack.1.1 hown hok hops m hm hne
+      obtain ⟨hx, hown, hok, hops⟩ := hack.1 hT
+      have h1 := fprewrite_ack_locks_sorted f r x hs hx hown hok hops m hm hne
       simp only [] at hT
       rw [hT] at h1
       exact fprewriteAll_keeps_locks _ rest T hs' hack.2 m.key h1
